@@ -949,6 +949,54 @@ func runC18(c *Ctx) {
 		})
 	}
 	runC18ConfigFixpoint(c)
+	// ... and nothing else keeps a lease of the file out of the table: the conditions on the lease element under which the
+	// loader inserts it are the listed ones (allocated, a client identifier, a valid address inside the subnet chosen for
+	// it). A further test on the element - of its hardware address, say - silently drops bindings that were acknowledged.
+	r.Rule("insert-only", "a lease of the file is kept out of the table only for the listed reasons", 1)
+	if lb := c.P.Method(dhcpRel, "Handler", "loadByteArray"); lb != nil {
+		allowed := []*regexp.Regexp{
+			regexp.MustCompile(`^!?\(len\(local\(\w+\)\.ClientID\)==0\)$`), regexp.MustCompile(`^!?\(local\(\w+\)\.ClientID==nil\)$`),
+			regexp.MustCompile(`^!?\(local\(\w+\)\.State==2\)$`), regexp.MustCompile(`^!?\(local\(\w+\)\.State!=2\)$`),
+			regexp.MustCompile(`^!?\(net/netip\.Addr\)\.IsValid\(local\(\w+\)\.Addr\.IP\)$`),
+			regexp.MustCompile(`^!?\(net/netip\.Addr\)\.Is4\(local\(\w+\)\.Addr\.IP\)$`),
+			regexp.MustCompile(`^!?\(net/netip\.Prefix\)\.Contains\(.*\.SubnetConfig\.LAN,local\(\w+\)\.Addr\.IP\)$`),
+			regexp.MustCompile(`^!?\(len\(local\(\w+\)\.ClientID\)>0\)$`),
+		}
+		n := 0
+		core.EachInstr(lb, func(i ssa.Instruction) {
+			mu, ok := i.(*ssa.MapUpdate)
+			if !ok || !regexp.MustCompile(`^local\(\w+\)\.ClientID$`).MatchString(norm(mu.Key)) {
+				return
+			}
+			n++
+			elem := norm(mu.Key)[:strings.Index(norm(mu.Key), ".")]
+			var extra []string
+			for _, g := range guardsOf(i) {
+				if !strings.Contains(g.Text, elem+".") {
+					continue
+				}
+				okG := false
+				for _, re := range allowed {
+					if re.MatchString(g.Text) {
+						okG = true
+					}
+				}
+				if !okG {
+					extra = append(extra, g.Text)
+				}
+			}
+			st, det := core.Proved, ""
+			if len(extra) > 0 {
+				st = core.Violated
+				det = "loadByteArray inserts a lease of the file only if also " + strings.Join(extra, " && ") + ": acknowledged bindings for which this is false are silently missing from the new handler (their renewals are refused, their addresses count as free)"
+			}
+			r.Add(core.Obligation{Rule: "insert-only", Key: "insert-only loadByteArray", Func: core.FuncName(lb), Pos: c.P.Pos(core.PosOf(i)), Status: st,
+				Basis: "conditions on the lease element at the insertion: allocated, client identifier, valid IPv4 address inside the subnet", Detail: det})
+		})
+		if n == 0 {
+			r.Add(core.Obligation{Rule: "insert-only", Key: "insert-only loadByteArray", Func: core.FuncName(lb), Status: core.Undecided, Detail: "the insertion of loaded leases was not found"})
+		}
+	}
 }
 
 // runC18ConfigFixpoint: New keeps the loaded tables only if configChanged(configured, loaded) is false, and what is loaded
